@@ -159,7 +159,7 @@ func parseV1PortNumber(portStr string) (uint16, error) {
 func parseV1IPAddress(protocol AddressFamilyAndProtocol, addrStr string) (addr net.IP, err error) {
 	addr = net.ParseIP(addrStr)
 	tryV4 := addr.To4()
-	if (protocol == TCPv4 && tryV4 == nil) || (protocol == TCPv6 && tryV4 != nil) {
+	if (protocol == TCPv4 && tryV4 == nil) || (protocol == TCPv6 && (addr == nil || tryV4 != nil)) {
 		err = ErrInvalidAddress
 	}
 	return
